@@ -14,6 +14,10 @@ CHECKS = {
          "Decides a structural condition that is necessary and, for the error sources that exist in main.go, sufficient: every non-nil error on the input→parse→compile→output path reaches a non-zero exit on every CFG path; a nil error is only returned after printer.Fprint(out) succeeded; flags reach the parameter of the same meaning. 'other' because it is a static path property of the CLI source, not an exploration of runs.",
          "DESIGN.md §4 C18",
          "Trusts go/ssa's CFG of main.go; assumes os.Exit(≠0)/log.Fatal/panic terminate with non-zero status and that bytes.Buffer writes cannot fail; does not cover OS behaviour after Fprint returned nil."),
+ "C16": ("path-sensitive nil-guard analysis of the two sentinel links and pointer-origin (freshness) analysis of every store, on go/ssa of set/set.go",
+         "Decides only the last sentence of the property (no panic on the empty set through the sentinel links; operands never modified). The arithmetic clauses (membership, cardinality, union, complement, equality) are values of executions over insertion histories and are explicitly not decided.",
+         "DESIGN.md §4 C16",
+         "Trusts go/ssa; assumes the list-shape invariant of AddRange for walks through *Node aliases (not decided); partial claim: set arithmetic is not covered."),
 }
 
 NOT_APPLICABLE = {
@@ -49,7 +53,7 @@ def main():
         "hooks": {
             "guard": "verif",
             "enable": "none needed: pegsa reads /repo's sources (Go, peg.go.tmpl, *.peg) and never builds or runs peg; no hook code exists in /repo",
-            "baseline_off_cmd": "cd /repo && go test -vet=off -count=1 . ./set ./tree",
+            "baseline_off_cmd": "cd /repo && go test -json -vet=off -count=1 -timeout 25m ./...",
             "source_commits": [],
             "add_only": True,
         },
